@@ -26,7 +26,7 @@ CODEC_DIFF = dict(
 PURE = {
     'C15': dict(
         module='Properties.C15', file='Properties/C15.v',
-        diffs=[MANAGER_DIFF],
+        diffs=[MANAGER_DIFF], families=['multiq'], quick_episodes=400, thorough_episodes=5000,
         params={},
         footprint=['M+', 'M-', 'MRR', 'MMAX', 'MMIN', 'MLEN', 'MCNT', 'validator:'],
         oracle_kinds=['mgr.rr', 'mgr.max', 'mgr.min', 'mgr.fair', 'mgr.len', 'mgr.unreg'],
@@ -45,7 +45,7 @@ PURE = {
     ),
     'C04': dict(
         module='Properties.C04', file='Properties/C04.v',
-        diffs=[QUEUES_DIFF],
+        diffs=[QUEUES_DIFF], families=['order'], quick_episodes=400, thorough_episodes=5000,
         params={'initialBufferCapacity': 1, 'chunkMaxCapacity': 1},
         footprint=['E', 'D', 'V', 'S', 'PV', 'H+', 'H-', 'HV', 'HPV', 'validator:'],
         oracle_kinds=['fifo.order', 'fifo.lost', 'fifo.enqueue-result', 'fifo.purge-values', 'heap.order', 'heap.lost', 'heap.enqueue-result', 'heap.purge-values'],
